@@ -466,6 +466,7 @@ func (p *pipe) _background() {
 	if p.cache != nil {
 		p.cache.Close(ErrDoCacheAborted)
 	}
+	verifPoint("conn.disconnected", p.conn)
 	if p.onInvalidations != nil {
 		p.onInvalidations(nil)
 	}
@@ -818,6 +819,7 @@ func (p *pipe) handlePush(values []RedisMessage) (reply bool, unsubscribe bool) 
 				p.cache.Delete(values[1].values())
 			}
 		}
+		verifPoint("push.invalidated", p.conn, values[1])
 		if p.onInvalidations != nil {
 			if values[1].IsNil() {
 				p.onInvalidations(nil)
